@@ -56,6 +56,10 @@ structure Inv (K : Crypto) (c : Conv) : Prop where
     c.version ≠ none ∧ c.keys.ourCur ≠ none ∧ c.ourCurrentKey ≠ none ∧ c.theirKey ≠ none
   /-- the AKE context, when present, holds what its state relies on -/
   ake : ∀ a, c.ake = some a → AkeOK c.ourCurrentKey a.state a
+  /-- a key exchange under way means that the conversation is committed to a protocol version (repaired code:
+      a rejected message takes back the version it had committed the conversation to — and only a message that
+      was not rejected starts an exchange) -/
+  akeVer : c.version = none → ∀ a, c.ake = some a → a.state = .none
 
 /-- `Inv` contains `FullWF` (the invariant of the data path) as soon as a version is set -/
 theorem Inv.fullWF {K : Crypto} {c : Conv} (h : Inv K c) (hv : c.version ≠ none) : FullWF K c :=
@@ -67,12 +71,13 @@ theorem Inv.congr {K : Crypto} {c c' : Conv} (h : Inv K c)
     (hv : c'.version = c.version) (hm : c'.msgState = c.msgState) (hk : c'.keys.ourCur = c.keys.ourCur)
     (ho : c'.ourCurrentKey = c.ourCurrentKey) (ht : c'.theirKey = c.theirKey) (ha : c'.ake = c.ake)
     (hs : c'.smp = c.smp) : Inv K c' := by
-  refine ⟨?_, ?_, ?_, ?_, ?_⟩
+  refine ⟨?_, ?_, ?_, ?_, ?_, ?_⟩
   · have := h.smpWF; unfold SmpWF at *; rw [hs]; exact this
   · have := h.smpNum; unfold SmpNumWF at *; rw [hs]; exact this
   · have := h.smpWait; unfold SmpWaitWF at *; rw [hs]; exact this
   · rw [hv, hm, hk, ho, ht]; exact h.enc
   · rw [ha, ho]; exact h.ake
+  · rw [hv, ha]; exact h.akeVer
 
 theorem AkeOK.mono {ock ock' : Option DsaPub} {st : AuthState} {a : Ake} (h : AkeOK ock st a)
     (ho : ock ≠ none → ock' ≠ none) : AkeOK ock' st a := by
@@ -85,12 +90,13 @@ theorem AkeOK.mono {ock ock' : Option DsaPub} {st : AuthState} {a : Ake} (h : Ak
 
 /-- the AKE context may be dropped -/
 theorem Inv.dropAke {K : Crypto} {c : Conv} (h : Inv K c) : Inv K { c with ake := none } :=
-  ⟨h.smpWF, h.smpNum, h.smpWait, h.enc, fun a ha => by cases ha⟩
+  ⟨h.smpWF, h.smpNum, h.smpWait, h.enc, fun a ha => (by cases ha), fun _ a ha => (by cases ha)⟩
 
 /-- the AKE context may be replaced by one that holds what its state relies on -/
 theorem Inv.setAke {K : Crypto} {c : Conv} (h : Inv K c) (x : Option Ake)
-    (hx : ∀ a, x = some a → AkeOK c.ourCurrentKey a.state a) : Inv K { c with ake := x } :=
-  ⟨h.smpWF, h.smpNum, h.smpWait, h.enc, hx⟩
+    (hx : ∀ a, x = some a → AkeOK c.ourCurrentKey a.state a)
+    (hxv : c.version = none → ∀ a, x = some a → a.state = .none) : Inv K { c with ake := x } :=
+  ⟨h.smpWF, h.smpNum, h.smpWait, h.enc, hx, hxv⟩
 
 /-- a fresh conversation: any policies, keys (also none), fragment size, error handler, instance tag, and a
     version that may be preset (as the driver does) or not -/
@@ -102,12 +108,13 @@ def freshConv (version : Option Version) (policies : Policies) (keys : List DsaP
 theorem inv_init (K : Crypto) (version : Option Version) (policies : Policies) (keys : List DsaPub)
     (fragmentSize : Nat) (errHandler : Bool) (friendlyQuery : Bytes) (ourTag : Nat) :
     Inv K (freshConv version policies keys fragmentSize errHandler friendlyQuery ourTag) := by
-  refine ⟨?_, ?_, ?_, ?_, ?_⟩
+  refine ⟨?_, ?_, ?_, ?_, ?_, ?_⟩
   · simp [SmpWF, freshConv]
   · simp [SmpNumWF, freshConv]
   · simp [SmpWaitWF, freshConv]
   · intro h; simp [freshConv] at h
   · intro a h; simp [freshConv] at h
+  · intro _ a h; simp [freshConv] at h
 
 /-! ## wp: bridges and exact-state rules for the leaves -/
 
@@ -293,21 +300,23 @@ def InvV (K : Crypto) (c : Conv) : Prop := Inv K c ∧ c.version ≠ none
 
 theorem Inv.setKeys {K : Crypto} {c : Conv} (h : Inv K c) (k : Keys)
     (hk : c.msgState = .encrypted → k.ourCur ≠ none) : Inv K { c with keys := k } :=
-  ⟨h.smpWF, h.smpNum, h.smpWait, fun he => ⟨(h.enc he).1, hk he, (h.enc he).2.2⟩, h.ake⟩
+  ⟨h.smpWF, h.smpNum, h.smpWait, fun he => ⟨(h.enc he).1, hk he, (h.enc he).2.2⟩, h.ake, h.akeVer⟩
 
 theorem Inv.ofSmpFrame {K : Crypto} {c c' : Conv} (h : Inv K c) (hf : SmpFrame c c')
     (h1 : SmpWF c') (h2 : SmpNumWF K c') (h3 : SmpWaitWF c') : Inv K c' := by
   unfold SmpFrame at hf
-  refine ⟨h1, h2, h3, ?_, ?_⟩
+  refine ⟨h1, h2, h3, ?_, ?_, ?_⟩
   · rw [hf]; exact h.enc
   · rw [hf]; exact h.ake
+  · rw [hf]; exact h.akeVer
 
 /-- the peer's disconnect TLV re-establishes the invariant trivially -/
 theorem Inv.disc {K : Crypto} {c : Conv} (h : Inv K c) :
     Inv K { c with lastMessageStateChange := none, msgState := .finished, smp := {}, ake := none, keys := {} } := by
-  refine ⟨by simp [SmpWF], by simp [SmpNumWF], by simp [SmpWaitWF], ?_, ?_⟩
+  refine ⟨by simp [SmpWF], by simp [SmpNumWF], by simp [SmpWaitWF], ?_, ?_, ?_⟩
   · intro he; cases he
   · intro a ha; cases ha
+  · intro _ a ha; cases ha
 
 theorem processSMPTLV_inv (K : Crypto) (hK : GroupOK K) (t : Tlv) (s : MState) (h : InvV K s.conv) :
     wp (processSMPTLV K t) (fun _ s' => InvV K s'.conv) NoP s := by
